@@ -686,13 +686,17 @@ class TimerNoop(BaseTimerContext):
 class TimerContext(BaseTimerContext):
     """Low resolution timeout context manager"""
 
-    __slots__ = ("_loop", "_tasks", "_cancelled", "_cancelling")
+    __slots__ = ("_loop", "_tasks", "_cancelled", "_cancelling", "_uncancel_pending")
 
     def __init__(self, loop: asyncio.AbstractEventLoop) -> None:
         self._loop = loop
         self._tasks: list[asyncio.Task[Any]] = []
         self._cancelled = False
         self._cancelling = 0
+        # Tasks cancelled by timeout() whose cancel request has not been
+        # balanced by uncancel() yet (it must be balanced exactly once even
+        # if the task entered the context several times).
+        self._uncancel_pending: set[asyncio.Task[Any]] = set()
 
     def assert_timeout(self) -> None:
         """Raise TimeoutError if timer has already been cancelled."""
@@ -734,8 +738,16 @@ class TimerContext(BaseTimerContext):
             if sys.version_info >= (3, 11):
                 # If the task was already cancelling don't raise
                 # asyncio.TimeoutError and instead return None
-                # to allow the cancellation to propagate
-                if enter_task.uncancel() > self._cancelling:
+                # to allow the cancellation to propagate.
+                # timeout() issued a single cancel() for this task: only the
+                # first (innermost) level may balance it with uncancel(),
+                # outer levels just look at the remaining requests.
+                if enter_task in self._uncancel_pending:
+                    self._uncancel_pending.discard(enter_task)
+                    cancelling = enter_task.uncancel()
+                else:
+                    cancelling = enter_task.cancelling()
+                if cancelling > self._cancelling:
                     return None
             raise asyncio.TimeoutError from exc_val
         return None
@@ -743,7 +755,8 @@ class TimerContext(BaseTimerContext):
     def timeout(self) -> None:
         if not self._cancelled:
             for task in set(self._tasks):
-                task.cancel()
+                if task.cancel():
+                    self._uncancel_pending.add(task)
 
             self._cancelled = True
 
